@@ -31,6 +31,13 @@ func main() {
 			count, _ := strconv.ParseUint(f[2], 10, 64)
 			return sweep32(start, count)
 		}
+		if len(f) == 3 && f[0] == "alias" {
+			v, err := strconv.ParseInt(f[2], 10, 64)
+			if err != nil {
+				return "bad-op"
+			}
+			return alias(f[1], v)
+		}
 		if len(f) != 2 {
 			return "bad-op"
 		}
@@ -89,6 +96,45 @@ func main() {
 		}
 		return "bad-op"
 	})
+}
+
+// alias: a result handed to the caller must not share storage with what a later call
+// returns (the caller appends to / overwrites it while assembling a section). Encode v and its
+// neighbours, overwrite every returned slice up to its capacity, encode again, compare.
+func alias(kind string, v int64) string {
+	enc := map[string]func(int64) []byte{
+		"u32": func(x int64) []byte { return leb128.EncodeUint32(uint32(x)) },
+		"u64": func(x int64) []byte { return leb128.EncodeUint64(uint64(x)) },
+		"s32": func(x int64) []byte { return leb128.EncodeInt32(int32(x)) },
+		"s64": func(x int64) []byte { return leb128.EncodeInt64(x) },
+	}[kind]
+	if enc == nil {
+		return "bad-op"
+	}
+	ws := []int64{v, v + 1, v - 1, v + 2, v - 2, 0, 1, -1, 63, 64, -64, -65, 127, 128}
+	before := make([][]byte, len(ws))
+	for i, w := range ws {
+		r := enc(w)
+		before[i] = append([]byte(nil), r...)
+		r = r[:cap(r)]
+		for j := range r {
+			r[j] = 0xa5
+		}
+	}
+	for i, w := range ws {
+		r := enc(w)
+		if !bytes.Equal(r, before[i]) {
+			return fmt.Sprintf("ALIAS %s(%d) = %s before and %s after the caller overwrote earlier results", kind, w, vh.Hex(before[i]), vh.Hex(r))
+		}
+		r = append(r, 0x0b)
+		_ = r
+	}
+	for i, w := range ws {
+		if r := enc(w); !bytes.Equal(r, before[i]) {
+			return fmt.Sprintf("ALIAS %s(%d) = %s before and %s after the caller appended to earlier results", kind, w, vh.Hex(before[i]), vh.Hex(r))
+		}
+	}
+	return "ok"
 }
 
 func minLenU(v uint64) int {
